@@ -204,9 +204,11 @@ class Machine:
         if mat is None:
             logging.error('"stage" used outside of a matrix block.')
             return
-        rect = Rect(
-            self._reg.first_row, self._reg.last_row,
-            self._reg.first_column, self._reg.last_column)
+        # Row and column numbers that come out of expressions may be floats.
+        rect = Rect(*(
+            None if index is None else round(index) for index in (
+                self._reg.first_row, self._reg.last_row,
+                self._reg.first_column, self._reg.last_column)))
         mat.overlay_color(rect, color)
 
     def _color_matrix_light(self) -> None:
